@@ -22,7 +22,20 @@ func init() {
 }
 
 func finishQ(rc *RunCtx, qr *QRun) {
-	rc.Res.Nontrivial = len(rc.Res.Fired) > 0 || rc.Res.Interleave > 0
+	// fold the observable outcome into the trace hash (determinism self-test)
+	for _, d := range qr.Deliveries {
+		rc.Tape.Note(fmt.Sprintf("d%d %s %s %d", d.Watcher, d.Oid, d.Name, d.Step))
+	}
+	for _, e := range qr.Errors {
+		rc.Tape.Note(e)
+	}
+	for _, r := range qr.W.Net.Log {
+		rc.Tape.Note(fmt.Sprintf("%d %v %s %s %s %d %s", r.Step, r.At, r.G, r.Method, r.URL, r.Status, r.Note))
+	}
+	for _, e := range qr.Events {
+		rc.Tape.Note(fmt.Sprintf("%d %s %s %s %v", e.Step, e.G, e.Kind, e.Oid, e.At))
+	}
+	rc.Res.Nontrivial = len(rc.Res.Fired) > 0 || (rc.Sched != nil && rc.Sched.Interleave > 0)
 	if rc.Opts.WantSample {
 		rc.Res.Sample = qr.Sample(rc)
 	}
